@@ -1,22 +1,26 @@
-(* C02 driver (own legs) *)
+(* C02 driver (own legs): default-initialised objects from the extracted C02.Model; the allocation legs have no
+   model computation (the models have no allocation primitive): the model and spec legs are the constant 0 *)
 let obj_of = function
   | "sv_int" -> StaticVectorTrivial | "sv_nt" -> StaticVectorNonTrivial
   | "iv_int" -> InplaceVectorTrivial | "iv_nt" -> InplaceVectorNonTrivial
-  | "str7" -> InplaceStringTiny | "str16" | "str255" -> InplaceStringNormal
-  | "string_view" -> StringView | "span" -> Span | "static_set" -> StaticSet | "flat_set" -> FlatSet
-  | "optional" -> Optional | "bitset" -> Bitset
+  | "str7" | "str15" | "wstr7" -> InplaceStringTiny | "str16" | "str255" | "str256" | "wstr16" -> InplaceStringNormal
+  | "string_view" | "wstring_view" -> StringView | "span" | "span_static0" -> Span | "mdspan" -> Mdspan
+  | "static_set" -> StaticSet | "flat_set" -> FlatSet | "flat_multiset" -> FlatMultiset | "stack" -> Stack
+  | "optional" -> Optional | "optional_nt" -> OptionalNonTrivial | "variant" -> Variant | "expected" -> Expected
+  | "bitset" | "bitset8" | "bitset64" -> Bitset | "inplace_function" -> InplaceFunction
+  | "pair" -> Pair | "tuple" -> Tuple | "extents" -> Extents | "duration" -> Duration
   | _ -> raise Not_found
+
+let zs l = join (List.map str_of_z l)
 
 let run_case op t =
   match op with
-  | "noalloc" ->
+  | "noalloc" | "noalloc_ce" ->
       (* the models have no allocation primitive: structurally zero *)
       ("ok allocs 0", "ok allocs 0")
   | "default_init" ->
       let o = obj_of (next_str t) in
-      let n = read_poisoned (size_member o) in
-      let m = "ok " ^ str_of_z n ^ " " ^ b2s (big_of_z n = Big.zero) in
-      (m, "ok 0 1")
+      ("ok " ^ zs (default_obs_poisoned o), "ok " ^ zs (empty_state o))
   | _ -> raise Not_found
 
 let () = main run_case
